@@ -42,6 +42,9 @@ def run(ctx):
                      'legacy wrapper under the same name, and vice versa', 2)
     ctx.rule('R16f', 'std_macro builds the argument string as optional `[` followed by numargs `{`; '
                      'std_environment forwards to it with make_environment_spec', 2)
+    ctx.rule('R16h', 'get_latex_nodes(stop_upon_closing_brace=...): the closing delimiter registered in '
+                     'the parsing state is the value the stop condition compares the token with, for the '
+                     'one-character and the (open, close) form alike', 2)
     ctx.rule('R16g', 'the legacy args parser advances its position only to positions reported by '
                      'the sub-parse (np + nl, tok.pos + len), never by arithmetic on the query '
                      'position (leading whitespace would be miscounted)', 4)
@@ -171,6 +174,47 @@ def run(ctx):
         ctx.decide('R16a', fw, w, gp[0], 'all stop options forwarded under their own names',
                    'get_latex_nodes does not forward all of its stop options to '
                    'LatexGeneralNodesParser under their own names', construct='get_latex_nodes: forwarding')
+
+    # ---- R16h: the closing delimiter compared by the stop condition == the one registered
+    from .. import symex
+    cmpvar = None
+    if stc:
+        for c_ in ast.walk(stc[0]):
+            if isinstance(c_, ast.Compare) and len(c_.ops) == 1 and isinstance(c_.ops[0], ast.Eq) and \
+                    unparse(c_.left).endswith('.arg') and isinstance(c_.comparators[0], ast.Name) and \
+                    any(pol and "== 'brace_close'" in unparse(t) for t, pol in atomic_facts(c_) + [
+                        (x, True) for x in (getattr(c_, '_parent', None).values
+                                            if isinstance(getattr(c_, '_parent', None), ast.BoolOp) else [])]):
+                cmpvar = c_.comparators[0].id
+    if cmpvar is None:
+        ctx.unknown('R16h', w, f, 'comparison of the closing-brace token in stop_token_condition not found',
+                    construct='get_latex_nodes: closing delimiter compared')
+    else:
+        def _is_sub(c_):
+            return call_name(c_) == 'sub_context' and kwarg(c_, 'latex_group_delimiters') is not None
+        cases = symex.sink_cases(f, _is_sub)
+        n_h = 0
+        for cs in cases:
+            added = [t for t in ast.walk(kwarg(cs.sub, 'latex_group_delimiters'))
+                     if isinstance(t, ast.Tuple) and len(t.elts) == 2]
+            if not added:
+                continue
+            n_h += 1
+            reg = added[-1].elts[1]
+            cur = symex.subst(ast.Name(id=cmpvar, ctx=ast.Load()), cs.env)
+            path = ' & '.join(cs.cond_src())[-100:]
+            ctx.decide('R16h', unparse(reg) == unparse(cur), w, cs.node,
+                       'the closing delimiter registered as group delimiter (%s) is the value the stop '
+                       'condition compares tok.arg with' % short(reg),
+                       'on the path [%s] the delimiter pair registered in the parsing state closes with '
+                       '%s but the stop condition compares the token with %s (%s): with the documented '
+                       '(open, close) form the closing token never stops the collection, where the '
+                       'equivalent LatexGeneralNodesParser call succeeds'
+                       % (path, short(reg), cmpvar, short(cur)),
+                       construct='get_latex_nodes: closing delimiter [%s]' % path[-60:])
+        if not n_h:
+            ctx.unknown('R16h', w, f, 'no registration of the delimiter pair found',
+                        construct='get_latex_nodes: closing delimiter registered')
 
     # ---- R16d
     sp = repo.mod(SPEC)
